@@ -102,9 +102,12 @@ Fixpoint run_ops (blocks : list block) (ops : list dop) (head : block) (st : poo
         | DReset b => (run_reorg_reset blocks head b st, [], b)
         | DTip tip => (pool_SetGasTip tip st, [], head)
         end in
-      if ambiguous t0 st1 then [SL [SI 99]]
+      (* SetGasTip removes txs in Go's map order, which decides whether a queue entry (and its
+         heartbeat) is deleted and recreated or survives: all heartbeats are re-issued after it *)
+      let is_tip := match o with DTip _ => true | _ => false end in
+      if negb is_tip && ambiguous t0 st1 then [SL [SI 99]]
       else
-        let st2 := norm_priced (canon_beats t0 st1) in
+        let st2 := norm_priced (canon_beats (if is_tip then 0 else t0) st1) in
         SL [SL (map sn errs); dump st2] :: run_ops blocks rest head1 st2
   end.
 
